@@ -95,6 +95,42 @@ type entry struct {
 	urlStr string
 	urlOk  bool
 	url    int
+	// raw, when not empty, is the JSON text of the element: a value of the
+	// wrong JSON type, as a whole (a string, an array, a number, true) or in
+	// one of its properties (filterKey or downloadUrl a number).  Such an
+	// element is an invalid entry of the index; keyStr and urlStr are what is
+	// left of it (the properties of the right type).
+	raw string
+}
+
+// mistypedKinds are the ways an element of "filters" can have the wrong JSON
+// type.
+var mistypedKinds = []string{"keynum", "urlnum", "keybool", "urlarr", "str", "arr", "num", "true", "keynull-urlobj"}
+
+// mistypedEntry builds an entry of the wrong JSON type.  k is the key that the
+// entry names when its filterKey is intact (urlnum, urlarr), u the URL it
+// carries when its downloadUrl is intact.
+func (w *world) mistypedEntry(kind string, k, u int) entry {
+	switch kind {
+	case "keynum":
+		return entry{urlStr: w.listURL(u), raw: fmt.Sprintf(`{"filterKey":%d,"downloadUrl":%s}`, 7+k, jsonQuote(w.listURL(u)))}
+	case "keybool":
+		return entry{urlStr: w.listURL(u), raw: fmt.Sprintf(`{"downloadUrl":%s,"filterKey":false}`, jsonQuote(w.listURL(u)))}
+	case "urlnum":
+		return entry{keyStr: keyNames[k], key: k, keyOk: true, raw: fmt.Sprintf(`{"filterKey":%s,"downloadUrl":17}`, jsonQuote(keyNames[k]))}
+	case "urlarr":
+		return entry{keyStr: keyNames[k], key: k, keyOk: true, raw: fmt.Sprintf(`{"downloadUrl":[%s],"filterKey":%s}`, jsonQuote(w.listURL(u)), jsonQuote(keyNames[k]))}
+	case "str":
+		return entry{raw: jsonQuote(keyNames[k])}
+	case "arr":
+		return entry{raw: fmt.Sprintf(`[%s,%s]`, jsonQuote(keyNames[k]), jsonQuote(w.listURL(u)))}
+	case "num":
+		return entry{raw: strconv.Itoa(u)}
+	case "true":
+		return entry{raw: "true"}
+	default: // keynull-urlobj: a null key is an empty key, the URL an object
+		return entry{raw: fmt.Sprintf(`{"filterKey":null,"downloadUrl":{"href":%s}}`, jsonQuote(w.listURL(u)))}
+	}
 }
 
 // plan is what the server does with one URL during one round.
@@ -223,6 +259,21 @@ func (w *world) handle(rw http.ResponseWriter, rq *http.Request) {
 		if cancel != nil {
 			cancel()
 		}
+		<-rq.Context().Done()
+	case "cancelbody":
+		// The deadline of the whole refresh expires (or the process is told
+		// to stop) in the middle of this transfer: a part of the body has
+		// arrived, the rest never does.
+		_, _ = rw.Write(p.c.body[:p.cut])
+		rw.(http.Flusher).Flush()
+		w.snapshot()
+		w.mu.Lock()
+		cancel := w.cancelRound
+		w.mu.Unlock()
+		if cancel != nil {
+			cancel()
+		}
+		w.snapshot()
 		<-rq.Context().Done()
 	case "status":
 		rw.WriteHeader(p.status)
@@ -413,6 +464,11 @@ func (w *world) newIdx(es []entry, shape string) *content {
 
 			continue
 		}
+		if e.raw != "" {
+			b.WriteString(e.raw)
+
+			continue
+		}
 		fmt.Fprintf(b, `{"filterKey":%s,"downloadUrl":%s,"x":%d}`, jsonQuote(e.keyStr), jsonQuote(e.urlStr), c.id)
 	}
 	b.WriteString(`]}`)
@@ -569,7 +625,10 @@ func (w *world) newHash(size int, shape string) *content {
 
 // roundSpec describes one refresh round.
 type roundSpec struct {
-	restart bool
+	// extraFailed: a safe-search download of the round failed (wired
+	// campaign), which makes the round fail legitimately.
+	extraFailed bool
+	restart     bool
 	// maxes: the process restarts with other size limits (index, rule
 	// lists, services); nil = unchanged.  Only looked at on a restart.
 	maxes *[3]int
@@ -582,6 +641,9 @@ type roundSpec struct {
 }
 
 type caseSpec struct {
+	// wired: the storage is built by the real builder of internal/cmd, with
+	// the safe-search and hash-prefix filters in the same cache directory.
+	wired      bool
 	name       string
 	rlMax      int
 	idxMax     int
@@ -821,7 +883,7 @@ func runCase(r *hlib.Result, m *hlib.Model, w *world, cs *caseSpec, caseNo int) 
 	hlib.Must(os.MkdirAll(w.dir, 0o755))
 	w.snaps, w.snapStart = nil, nil
 
-	lines := []string{fmt.Sprintf("cfg %d %d %d %s 1 1 1", cs.idxMax, cs.rlMax, cs.svcMax, b2s(cs.svcEnabled))}
+	lines := []string{fmt.Sprintf("cfg %d %d %d %s 1 1 1 1", cs.idxMax, cs.rlMax, cs.svcMax, b2s(cs.svcEnabled))}
 	declared := map[int]bool{}
 	declare := func(c *content) {
 		if c == nil || declared[c.id] {
@@ -841,7 +903,12 @@ func runCase(r *hlib.Result, m *hlib.Model, w *world, cs *caseSpec, caseNo int) 
 
 					continue
 				}
-				parts = append(parts, fmt.Sprintf("o:%d:%s:%s:%s:%d", w.keyNum(e), hex.EncodeToString([]byte(e.keyStr)), b2s(e.urlStr == ""), b2s(e.urlOk), e.url))
+				tag := "o"
+				if e.raw != "" {
+					// Wrong JSON type: what is left of the element.
+					tag = "t"
+				}
+				parts = append(parts, fmt.Sprintf(tag+":%d:%s:%s:%s:%d", w.keyNum(e), hex.EncodeToString([]byte(e.keyStr)), b2s(e.urlStr == ""), b2s(e.urlOk), e.url))
 			}
 			lines = append(lines, strings.TrimSpace(fmt.Sprintf("rawdoc %d %s %s", c.id, b2s(c.jsonOK), strings.Join(parts, " "))))
 		case "svc":
@@ -948,7 +1015,7 @@ func runCase(r *hlib.Result, m *hlib.Model, w *world, cs *caseSpec, caseNo int) 
 		}
 		cancelURL := -1
 		for _, u := range sortedInts(rs.urls) {
-			if rs.urls[u].kind == "cancelctx" {
+			if k := rs.urls[u].kind; k == "cancelctx" || k == "cancelbody" {
 				cancelURL = u
 			}
 		}
@@ -1216,7 +1283,9 @@ func oracle(r *hlib.Result, w *world, cs *caseSpec, rs *roundSpec, acceptStale b
 		viol("cache-file-overwritten-by-other-list:services", "services.json now holds the document of a rule list")
 	}
 	for _, name := range reservedKeys {
-		if name == "services.json" || name == "filters.json" || name == "." || name == ".." {
+		if name == "services.json" || name == "filters.json" || name == "." || name == ".." || cs.wired {
+			// (In the wired campaign these files belong to their filters and
+			// are checked there.)
 			continue
 		}
 		if _, err := os.Stat(filepath.Join(w.dir, name)); err == nil {
@@ -1265,7 +1334,7 @@ func oracle(r *hlib.Result, w *world, cs *caseSpec, rs *roundSpec, acceptStale b
 		// ... unless the start itself was cancelled from outside.
 		cancelled := false
 		for u, p := range rs.urls {
-			if p.kind == "cancelctx" && reqs[fmt.Sprintf("/u/%d", u)] > 0 {
+			if (p.kind == "cancelctx" || p.kind == "cancelbody") && reqs[fmt.Sprintf("/u/%d", u)] > 0 {
 				cancelled = true
 			}
 		}
@@ -1424,6 +1493,31 @@ func oracle(r *hlib.Result, w *world, cs *caseSpec, rs *roundSpec, acceptStale b
 			}
 		}
 	}
+	// O8: a round that has a usable index — a JSON document whose "filters"
+	// is an array, whatever its elements are — and a usable service index, and
+	// that nobody cancelled, succeeds: invalid elements are skipped, they do
+	// not make the round (and with it every valid entry) fail.
+	if gov != nil && !cur.ok && !cur.panicked {
+		svcFine := !cs.svcEnabled
+		if c := w.contentByID(cur.svcDisk); c != nil && c.kind == "svc" && c.svcOK && !(svcRequested && rs.svc.faulty(cs.svcMax)) {
+			svcFine = true
+		}
+		cancelled := (svcRequested && (rs.svc.kind == "cancelctx" || rs.svc.kind == "cancelbody")) || (idxRequested && idxFaulty) || rs.extraFailed
+		for u, p := range rs.urls {
+			if (p.kind == "cancelctx" || p.kind == "cancelbody") && reqs[fmt.Sprintf("/u/%d", u)] > 0 {
+				cancelled = true
+			}
+		}
+		if svcFine && !cancelled {
+			cls := "other"
+			for _, e := range gov.entries {
+				if e.raw != "" {
+					cls = "mistyped-entry"
+				}
+			}
+			viol("index-refused:"+cls, "the round failed although the index is a JSON document with valid entries, the services are usable and nothing was cancelled: the valid entries were not applied; index in key order: "+entriesInKeyOrder(gov))
+		}
+	}
 	// A round that reports an error must not have changed the rule lists.
 	if !cur.ok {
 		r.Count("round_err")
@@ -1460,6 +1554,8 @@ func entriesInKeyOrder(c *content) string {
 		switch {
 		case e.null:
 			parts = append(parts, "null")
+		case e.raw != "":
+			parts = append(parts, "mistyped("+e.raw+")")
 		case !e.keyOk:
 			k := e.keyStr
 			if len(k) > 16 {
@@ -1604,7 +1700,7 @@ func fileClass(name string) string {
 var statuses = []int{201, 204, 206, 304, 400, 403, 404, 500, 503}
 
 // faultKinds are the fault kinds of the statement (plus "body at the limit").
-var faultKinds = []string{"connerr", "status", "empty", "oversize", "cutcl", "cutchunked", "cancelctx", "timeouthdr", "timeoutbody"}
+var faultKinds = []string{"connerr", "status", "empty", "oversize", "cutcl", "cutchunked", "cancelctx", "cancelbody", "timeouthdr", "timeoutbody"}
 
 // mkFault builds a faulty plan of the given kind around a complete content
 // generator.
@@ -1736,9 +1832,20 @@ func (g *gen) genEntriesDense() (es []entry) {
 		es = append(es, g.reservedEntry(rng.IntN(len(reservedKeys))))
 		g.w.r.Count("gen_reserved_key_entry")
 	}
+	for rng.IntN(3) == 0 {
+		es = append(es, g.mistyped())
+	}
 	rng.Shuffle(len(es), func(i, j int) { es[i], es[j] = es[j], es[i] })
 
 	return es
+}
+
+// mistyped is a random element of the wrong JSON type.
+func (g *gen) mistyped() entry {
+	kind := mistypedKinds[g.rng.IntN(len(mistypedKinds))]
+	g.w.r.Count("gen_mistyped_entry:" + kind)
+
+	return g.w.mistypedEntry(kind, 1+g.rng.IntN(len(keyNames)-1), 1+g.rng.IntN(6))
 }
 
 // genEntries builds the entries of an index document.
@@ -1761,7 +1868,9 @@ func (g *gen) genEntries() (es []entry, shape string) {
 	}
 	// Invalid entries and duplicates.
 	for rng.IntN(3) == 0 {
-		switch rng.IntN(6) {
+		switch rng.IntN(7) {
+		case 6:
+			es = append(es, g.mistyped())
 		case 5:
 			es = append(es, g.reservedEntry(rng.IntN(len(reservedKeys))))
 			g.w.r.Count("gen_reserved_key_entry")
@@ -1850,7 +1959,7 @@ func (g *gen) pickFault() string {
 		if (k == "timeouthdr" || k == "timeoutbody") && !g.cs.timeouts {
 			continue
 		}
-		if k == "cancelctx" {
+		if k == "cancelctx" || k == "cancelbody" {
 			// At most one per round: placed by randomCase itself.
 			continue
 		}
@@ -1955,14 +2064,20 @@ func randomCase(w *world, rng *rand.Rand, no int) *caseSpec {
 		if rng.IntN(10) == 0 {
 			// The context of the whole round is cancelled while one of the
 			// downloads is in flight.
+			ck := "cancelctx"
+			if rng.IntN(2) == 0 {
+				// ... in the middle of the body.
+				ck = "cancelbody"
+			}
 			switch p := rng.IntN(8); {
 			case p == 0:
-				rs.idx = &plan{kind: "cancelctx"}
+				rs.idx = g.idxFault(ck)
 			case p == 1:
-				rs.svc = &plan{kind: "cancelctx"}
+				rs.svc = g.svcFault(ck)
 			default:
-				rs.urls[1+rng.IntN(6)] = &plan{kind: "cancelctx"}
+				rs.urls[1+rng.IntN(6)] = g.rlFault(ck)
 			}
+			w.r.Count("gen_round_with_context_cancellation:" + ck)
 			w.r.Count("gen_round_with_context_cancellation")
 		}
 		cs.rounds = append(cs.rounds, rs)
@@ -2091,6 +2206,25 @@ func directedCases(w *world, rng *rand.Rand, thorough bool, each func(*caseSpec)
 			cs.rounds = []*roundSpec{round(g, good, "ok"), round(g, mixed, "ok")}
 			each(cs)
 			w.r.Count("directed_document_order")
+		}
+	}
+	// An element of the wrong JSON type next to valid entries (every kind x
+	// first, middle, last in the document): the index is a partially invalid
+	// one, so the new documents of the valid entries are applied, a served
+	// list whose entry is the broken one stays, and a restart on the stored
+	// index comes up.
+	for _, kind := range mistypedKinds {
+		for pos := 0; pos < 3; pos++ {
+			cs, g := mk(fmt.Sprintf("directed-mistyped-%s-pos%d", kind, pos))
+			good := []entry{g.goodEntry(1, 1), g.goodEntry(2, 2), g.goodEntry(3, 3)}
+			bad := w.mistypedEntry(kind, 2, 2)
+			mixed := []entry{g.goodEntry(1, 4), g.goodEntry(3, 3)}
+			mixed = append(mixed[:pos:pos], append([]entry{bad}, mixed[pos:]...)...)
+			r3 := round(g, mixed, "ok")
+			r3.restart = true
+			cs.rounds = []*roundSpec{round(g, good, "ok"), round(g, mixed, "ok"), r3, round(g, good, "ok")}
+			each(cs)
+			w.r.Count("directed_mistyped_entry")
 		}
 	}
 	// Invalid keys and null entries next to valid ones.
@@ -2250,8 +2384,8 @@ func directedCases(w *world, rng *rand.Rand, thorough bool, each func(*caseSpec)
 	// worker expires) while list k is being downloaded: lists before it in key
 	// order have been stored, nothing may be lost or swapped in half.
 	for k := 1; k < len(keyNames); k++ {
-		for _, svcOn := range []bool{true, false} {
-			cs, g := mk(fmt.Sprintf("directed-cancel-at-list-%d-svc=%v", k, svcOn))
+		for vi, svcOn := range []bool{true, false, true} {
+			cs, g := mk(fmt.Sprintf("directed-cancel-at-list-%d-svc=%v-%d", k, svcOn, vi))
 			cs.svcEnabled = svcOn
 			es := []entry{g.goodEntry(1, 1), g.goodEntry(2, 2), g.goodEntry(3, 3), g.goodEntry(4, 4)}
 			if k%2 == 0 {
@@ -2260,6 +2394,10 @@ func directedCases(w *world, rng *rand.Rand, thorough bool, each func(*caseSpec)
 			rng.Shuffle(len(es), func(i, j int) { es[i], es[j] = es[j], es[i] })
 			r1 := round(g, es, "ok")
 			r1.urls[k] = &plan{kind: "cancelctx"}
+			if vi == 2 {
+				// In the middle of the body.
+				r1.urls[k] = g.rlFault("cancelbody")
+			}
 			cs.rounds = []*roundSpec{round(g, es, "ok"), r1, round(g, es, "ok")}
 			each(cs)
 		}
@@ -2375,6 +2513,8 @@ func main() {
 
 	phase("random")
 	hashCampaign(o, r, m, w)
+	phase("wired")
+	wiredCampaign(o, r, m, w)
 	phase("hash")
 	observerCampaign(o, r, w)
 	phase("observer")
